@@ -1,31 +1,80 @@
 import Pandora.Drv.Util
 import Pandora.Spec.C01
 
+/-!
+C01 line-protocol driver.  Input = one load-profile configuration (`kind=… from=… to=… step=… ops=… times=… dur=…`, rates
+as exact rationals of the float64 values).  The model's observation is `REJECT` for a configuration outside the
+property's domain (a negative rate, a duration below 1 ms, step < 1, times < 1 — by `C01_validation` exactly what the
+regenerated validation predicates refuse) and `-` otherwise: token times depend on float64 rounding, they are judged by
+the Spec with its stated tolerance instead of being predicted byte for byte.
+-/
 namespace Pandora.Drv.C01
 open Pandora.Drv Pandora.Spec Pandora.Spec.C01
 
-def parseParts (kv : List (String × String)) : Option (List Part) := do
+def qNonneg (q : Q) : Bool := q.num ≥ 0
+def qEq (a b : Q) : Bool := a.num * b.den == b.num * a.den
+
+/-- is `q` a float64 (53 significant bits; exponent range ignored)? -/
+partial def oddPart (n : Nat) : Nat := if n == 0 then 0 else if n % 2 == 0 then oddPart (n / 2) else n
+def isPow2 (n : Nat) : Bool := n != 0 && oddPart n == 1
+def isF64 (q : Q) : Bool :=
+  let q := Q.norm q
+  isPow2 q.den && oddPart q.num.natAbs < 2 ^ 53
+
+/-- exact rate levels from, from+step, … ≤ to -/
+def stepLevels (f t : Q) (step : Int) (fuel : Nat) : List Q :=
+  match fuel with
+  | 0 => []
+  | fuel + 1 => if Q.le f t then f :: stepLevels (Q.norm (f + Q.ofInt step)) t step fuel else []
+
+inductive Parsed where
+  | bad
+  | outside (why : String)          -- outside the property's domain: must be rejected
+  | profile (parts : List Part)
+  | boundary                        -- step whose number of levels depends on float64 rounding of from + j·step
+
+def parse (kv : List (String × String)) : Parsed :=
+  let q (k : String) := (lookup kv k).bind Q.parse?
+  let durOk (d : Int) := d ≥ 1000000
   match getS kv "kind" with
   | "const" =>
-      let ops ← (lookup kv "ops").bind Q.parse?
-      let d ← getI? kv "dur"
-      pure [Part.const ops d]
+      match q "ops", getI? kv "dur" with
+      | some ops, some d =>
+          if !qNonneg ops then .outside "ops<0" else if !durOk d then .outside "duration<1ms"
+          else .profile [Part.const ops d]
+      | _, _ => .bad
   | "line" =>
-      let f ← (lookup kv "from").bind Q.parse?
-      let t ← (lookup kv "to").bind Q.parse?
-      let d ← getI? kv "dur"
-      if f.num * t.den == t.num * f.den then pure [Part.const f d] else pure [Part.line f t d]
+      match q "from", q "to", getI? kv "dur" with
+      | some f, some t, some d =>
+          if !qNonneg f then .outside "from<0" else if !qNonneg t then .outside "to<0"
+          else if !durOk d then .outside "duration<1ms"
+          else if qEq f t then .profile [Part.const f d] else .profile [Part.line f t d]
+      | _, _, _ => .bad
   | "step" =>
-      let f ← (lookup kv "from").bind Q.parse?
-      let t ← (lookup kv "to").bind Q.parse?
-      let s ← getI? kv "step"
-      let d ← getI? kv "dur"
-      if f.num * t.den == t.num * f.den then pure [Part.const f d]
-      else pure ((stepLevels f t s 100000).map fun r => Part.const r d)
+      match q "from", q "to", getI? kv "step", getI? kv "dur" with
+      | some f, some t, some s, some d =>
+          if !qNonneg f then .outside "from<0" else if !qNonneg t then .outside "to<0"
+          else if s < 1 then .outside "step<1" else if !durOk d then .outside "duration<1ms"
+          else if qEq f t then .profile [Part.const f d]
+          else
+            let levels := stepLevels f t s 100000
+            -- Go accumulates `i += step` in float64; that is exact when every partial sum is a float64
+            let next := match levels.getLast? with
+              | some r => Q.norm (r + Q.ofInt s)
+              | none => f
+            let exact := (next :: levels).all isF64
+            let eps := Q.norm (t * Q.ofInt (levels.length + 1) * Q.pow2neg 52)
+            let near := match levels.getLast? with
+              | some r => Q.le (t - r) eps || Q.le (next - t) eps
+              | none => Q.le (f - t) eps
+            if !exact && near then .boundary
+            else .profile (levels.map fun r => Part.const r d)
+      | _, _, _, _ => .bad
   | "once" =>
-      let n ← getI? kv "times"
-      pure [Part.once n]
-  | _ => none
+      match getI? kv "times" with
+      | some n => if n < 1 then .outside "times<1" else .profile [Part.once n]
+      | none => .bad
+  | _ => .bad
 
 def parseToks (s : String) : Option (List (Int × Int)) :=
   (splitList s ";").mapM fun kt =>
@@ -34,23 +83,35 @@ def parseToks (s : String) : Option (List (Int × Int)) :=
     | _ => none
 
 def parseObs (kv : List (String × String)) : Option Obs := do
-  pure { n := ← getI? kv "n", fin := ← getI? kv "fin", finStable := getS kv "finstable" == "1",
-         mono := getS kv "mono" == "1", tmin := (getI? kv "tmin").getD 0, tmax := (getI? kv "tmax").getD 0,
+  pure { left0 := ← getI? kv "left0", n := ← getI? kv "n", fin := ← getI? kv "fin",
+         finStable := getS kv "finstable" == "1", mono := getS kv "mono" == "1",
+         tmin := (getI? kv "tmin").getD 0, tmax := (getI? kv "tmax").getD 0,
+         parts := (lookup kv "parts").bind parseInts,
          toks := ← parseToks (getS kv "toks") }
 
 /-- The harness stops draining after `capTokens` tokens and answers `TOOMANY`: acceptable exactly when the profile
     is expected to hold more tokens than that (the count check then cannot be made; counted as skipped). -/
 def capTokens : Int := 3000000
 
+/-- more operations than an int64 can count: outside what the float64/int64 reading of the theorems covers -/
+def int64Max : Int := 9223372036854775807
+
 def judgeTooMany (parts : List Part) : String :=
-  let hi := (parts.map Part.countRange).foldl (fun a r => a + r.2) 0
+  let hi := sumI (parts.map fun p => p.countRange.2)
   if hi > capTokens then "skip:too-many-tokens" else s!"fail:count:n>{capTokens} expected<={hi}"
 
 def handle : Handler := fun input impl =>
-  match parseParts (parseKV input) with
-  | none => ("-", "fail:driver:unparsable input")
-  | some parts =>
-    if impl == "TOOMANY" then ("-", judgeTooMany parts) else
+  match parse (parseKV input) with
+  | .bad => ("-", "fail:driver:unparsable input")
+  | .outside why =>
+      ("REJECT", if impl == "REJECT" then "ok" else s!"fail:validation:accepted a configuration outside the domain ({why})")
+  | .boundary => ("-", if impl == "REJECT" then "fail:validation:rejected a valid profile" else "skip:level-boundary")
+  | .profile parts =>
+    if impl == "REJECT" then ("-", "fail:validation:rejected a valid profile")
+    else if impl == "TOOMANY" then ("-", judgeTooMany parts)
+    else if impl == "HANG" then ("-", "fail:hang:the schedule did not finish")
+    else if sumI (parts.map fun p => p.countRange.2) > int64Max then ("-", "skip:more-than-int64-operations")
+    else
       match parseObs (parseKV impl) with
       | some obs => ("-", judge parts obs)
       | none => ("-", s!"fail:crash:unparsable observation {impl.take 80}")
